@@ -13,6 +13,7 @@ import (
 	"encoding/json"
 	"fmt"
 	"io"
+	"strconv"
 	"strings"
 	"time"
 
@@ -31,8 +32,62 @@ type Config struct {
 	Reopen  bool     `json:"reopen"`
 	Tail    bool     `json:"tail"`
 	Initial string   `json:"initial"`
-	History []string `json:"history"` // a:append "a"  b:append "bc"  r:remove (after drain)  c:create empty  d:create with content "d" (rename into place)
+	History []string `json:"history"` // a:append "a"  b:append "bc"  r:remove (after drain)  c:create empty  d:create with content "d" (rename into place)  p/q:pause until the poller has looked at the path (Stat) 1/2 more times  "a*N": N separate appends of "a"
 	Bound   int      `json:"bound"`
+	// Family is "" (general histories), "burst" (a*N ; remove ; ...) or
+	// "missing-at-start" (re-open follow of a path that does not exist yet).
+	Family string `json:"family,omitempty"`
+	// Slow: the consumer takes (virtual) time between two Reads, so everything
+	// the writer and the notification pump can do happens while the reader is
+	// not inside Read.
+	Slow bool `json:"slow,omitempty"`
+	// Missing: the path does not exist when following starts (Initial unused).
+	Missing bool `json:"missing,omitempty"`
+}
+
+// ops expands the "a*N" shorthand of a history.
+func (c *Config) ops() []string {
+	var out []string
+	for _, op := range c.History {
+		if i := strings.IndexByte(op, '*'); i > 0 {
+			n, err := strconv.Atoi(op[i+1:])
+			if err != nil {
+				panic("bad history operation " + op)
+			}
+			for k := 0; k < n; k++ {
+				out = append(out, op[:i])
+			}
+			continue
+		}
+		out = append(out, op)
+	}
+	return out
+}
+
+// totalBytes is the number of bytes the history ever puts under the path.
+func (c *Config) totalBytes() int {
+	n := len(c.Initial)
+	for _, op := range c.ops() {
+		switch op {
+		case "a", "d":
+			n++
+		case "b":
+			n += 2
+		}
+	}
+	return n
+}
+
+// horizon is the number of clock advances an execution may take before the
+// writer's next operation (the writer extends it when it pauses and when it
+// is done): a few per operation for the deviations that let time pass while
+// something could run, plus one per Read of a slow consumer.
+func (c *Config) horizon() int {
+	h := 3*len(c.History) + 6
+	if c.Slow {
+		h += c.totalBytes() + 2
+	}
+	return h
 }
 
 type obs struct {
@@ -46,7 +101,8 @@ type obs struct {
 	started   bool
 	// model of the poller's "bytes read from the current file"
 	rb         int64
-	readerInc  int
+	readerInc  int // incarnation the reader has open (-1: none yet)
+	judgedInc  int // newest incarnation for which the polling proviso was evaluated
 	excused    bool
 	excusedAt  int
 	writerDone bool
@@ -69,29 +125,54 @@ func (o *obs) expected(c *Config) []byte {
 
 func body(c *Config, o *obs) {
 	fs := vos.Reset()
-	fs.Put(path, []byte(c.Initial))
-	o.incs = [][]byte{[]byte(c.Initial)}
-	o.exists = true
+	o.readerInc, o.judgedInc = -1, -1
+	if !c.Missing {
+		fs.Put(path, []byte(c.Initial))
+		o.incs = [][]byte{[]byte(c.Initial)}
+		o.exists = true
+	}
 	fs.OnStat = func(size int64) {
 		if !c.Poll || !c.Reopen || size < 0 {
 			return
 		}
 		cur := len(o.incs) - 1
-		if cur != o.readerInc && size >= o.rb && !o.excused {
-			// the statement's proviso for polling fails: the new file is not
-			// shorter than what was already delivered when the poller looks
-			o.excused = true
-			o.excusedAt = len(o.delivered)
+		if cur == o.readerInc || cur == o.judgedInc {
+			return
 		}
-		if size != o.rb && size < o.rb {
-			o.rb = 0
+		// "provided the new file is still shorter than what was already delivered
+		// when the poller notices it": this Stat is the poller noticing
+		// incarnation cur; the proviso is evaluated here, once
+		o.judgedInc = cur
+		if o.readerInc < 0 {
+			// the reader has never had a file (the path was missing at start):
+			// this is the followed file itself, not a re-creation; no proviso
+			return
 		}
+		if size >= o.rb {
+			if !o.excused {
+				o.excused = true
+				o.excusedAt = len(o.delivered)
+			}
+			return
+		}
+		o.rb = 0 // the reader has to start over with the new file
 	}
 	fs.OnOpen = func() { o.readerInc = len(o.incs) - 1 }
 
 	vrt.GoNamed("writer", func() {
-		for _, op := range c.History {
+		for _, op := range c.ops() {
 			switch op {
+			case "p", "q":
+				// "pause": the writer does nothing until the poller has looked at
+				// the path k more times (or the stream has ended); virtual time
+				// passes freely meanwhile
+				k := 1
+				if op == "q" {
+					k = 2
+				}
+				base := len(fs.Stats)
+				vrt.AddAdvances(6*k + c.horizon())
+				vrt.WaitFor(func() bool { return o.ended || len(fs.Stats) >= base+k }, "writer pauses")
 			case "a", "b":
 				data := []byte("a")
 				if op == "b" {
@@ -119,7 +200,11 @@ func body(c *Config, o *obs) {
 			}
 		}
 		o.writerDone = true
-		vrt.AddAdvances(14) // give a poller its full cycle of attempts after the last operation
+		extra := 0
+		if c.Slow {
+			extra = c.totalBytes() + 2
+		}
+		vrt.AddAdvances(14 + extra) // give a poller its full cycle of attempts after the last operation
 	})
 
 	r, err := followreader.New(path, c.Reopen, c.Poll)
@@ -140,6 +225,9 @@ func body(c *Config, o *obs) {
 	o.started = true
 	buf := make([]byte, 2)
 	for {
+		if c.Slow {
+			vrt.Sleep(time.Millisecond) // the consumer is busy with what it got
+		}
 		n, err := r.Read(buf)
 		o.delivered = append(o.delivered, buf[:n]...)
 		o.rb += int64(n)
@@ -172,7 +260,7 @@ func modeName(c *Config) string {
 
 func run(ex vrt.Chooser, c *Config, trace bool) (*obs, *vrt.Result, []finding) {
 	o := &obs{}
-	opts := vrt.Options{Trace: trace, MaxAdvances: 3*len(c.History) + 6, MaxSteps: 20000}
+	opts := vrt.Options{Trace: trace, MaxAdvances: c.horizon(), MaxSteps: 20000}
 	res := vrt.Run(ex, opts, func() { body(c, o) })
 	return o, res, check(c, o, res)
 }
@@ -181,9 +269,13 @@ func check(c *Config, o *obs, res *vrt.Result) []finding {
 	var fs []finding
 	mode := modeName(c)
 	ctx := func() string {
-		return fmt.Sprintf("mode=%s initial=%q history=%v\nincarnations=%q start=%d\ndelivered=%q ended=%v(%v) excused=%v blocked=%v horizon=%v now=%v", mode, c.Initial, c.History, o.incs, o.start, o.delivered, o.ended, o.endErr, o.excused, res.Blocked, res.Horizon, res.Now)
+		return fmt.Sprintf("mode=%s family=%q slow-consumer=%v missing-at-start=%v initial=%q history=%v\nincarnations=%q start=%d\ndelivered=%q ended=%v(%v) excused=%v blocked=%v horizon=%v now=%v", mode, c.Family, c.Slow, c.Missing, c.Initial, c.History, o.incs, o.start, o.delivered, o.ended, o.endErr, o.excused, res.Blocked, res.Horizon, res.Now)
 	}
-	add := func(sig, d string) { fs = append(fs, finding{"C15/" + mode + "/" + sig, d + "\n" + ctx()}) }
+	fam := ""
+	if c.Family != "" {
+		fam = c.Family + "/"
+	}
+	add := func(sig, d string) { fs = append(fs, finding{"C15/" + mode + "/" + fam + sig, d + "\n" + ctx()}) }
 	for _, f := range res.Faults {
 		add("runtime-fault/"+slug(f), f)
 	}
@@ -196,12 +288,10 @@ func check(c *Config, o *obs, res *vrt.Result) []finding {
 		return fs
 	}
 	exp := o.expected(c)
-	if !o.writerDone && !o.excused && bytes.Equal(exp, o.delivered) {
-		// the removal is not enabled in this execution (nothing was delivered
-		// before it, e.g. --tail started behind every append): the rest of the
-		// history does not happen; what happened is still checked below
-		o.removed = false
-	}
+	// When the writer is not done, a removal was not enabled in this execution
+	// (nothing was delivered before it, e.g. --tail started behind every
+	// append): the rest of the history does not happen; what happened (o.incs,
+	// o.removed describe exactly that) is checked below.
 	if o.excused {
 		// only what was delivered before the proviso failed is checked
 		if !bytes.HasPrefix(exp, o.delivered[:o.excusedAt]) {
@@ -255,27 +345,39 @@ func slug(s string) string {
 	return out
 }
 
-// histories enumerates every valid history up to maxLen.
-func histories(maxLen int, initial string) [][]string {
+// histories enumerates every valid history up to maxLen. exists: whether the
+// path exists at the start. pauses: how many pause operations a history may
+// contain (polling modes; "p" = one more look of the poller at the path
+// anywhere but at the end, "q" = two more looks, only while the path is
+// absent).
+func histories(maxLen int, initial string, exists bool, pauses int) [][]string {
 	var out [][]string
-	var rec func(h []string, exists bool, removals int, content bool)
-	rec = func(h []string, exists bool, removals int, content bool) {
-		out = append(out, append([]string{}, h...))
+	var rec func(h []string, exists bool, removals int, content bool, pauses int)
+	rec = func(h []string, exists bool, removals int, content bool, pauses int) {
+		if n := len(h); n == 0 || (h[n-1] != "p" && h[n-1] != "q") { // a pause at the end adds nothing
+			out = append(out, append([]string{}, h...))
+		}
 		if len(h) == maxLen {
 			return
 		}
+		if pauses > 0 && len(h) < maxLen-1 {
+			rec(append(h, "p"), exists, removals, content, pauses-1)
+			if !exists {
+				rec(append(h, "q"), exists, removals, content, pauses-1)
+			}
+		}
 		if exists {
-			rec(append(h, "a"), true, removals, true)
-			rec(append(h, "b"), true, removals, true)
+			rec(append(h, "a"), true, removals, true, pauses)
+			rec(append(h, "b"), true, removals, true, pauses)
 			if removals < 2 && content { // a removal follows delivered data
-				rec(append(h, "r"), false, removals+1, false)
+				rec(append(h, "r"), false, removals+1, false, pauses)
 			}
 		} else {
-			rec(append(h, "c"), true, removals, false)
-			rec(append(h, "d"), true, removals, true)
+			rec(append(h, "c"), true, removals, false, pauses)
+			rec(append(h, "d"), true, removals, true, pauses)
 		}
 	}
-	rec(nil, true, 0, initial != "")
+	rec(nil, exists, 0, exists && initial != "", pauses)
 	return out
 }
 
@@ -287,29 +389,147 @@ type Case struct {
 
 type pass struct{ maxLen, bound int }
 
-func configs(tier string) []*Config {
-	passes := []pass{{4, 2}, {3, 3}}
+// bounds of the three families, per tier
+type tierBounds struct {
+	general      []pass // histories with no pause
+	slow         []pass // the same with a slow consumer
+	paused       []pass // polling modes: histories with exactly... at least one pause (at most maxPauses)
+	maxPauses    int
+	missing      []pass // re-open follow of a path that is missing at start
+	burstN       []int  // numbers of separate appends before the removal
+	burstBound   int
+	burstPollMax int // polling modes get the burst family up to this N only (they have no signal queue)
+}
+
+func bounds(tier string) tierBounds {
 	if tier == "thorough" {
-		passes = []pass{{6, 2}, {5, 3}, {3, 4}}
+		all := make([]int, 70)
+		for i := range all {
+			all[i] = i + 1
+		}
+		all = append(all, 127, 128, 129, 130)
+		return tierBounds{
+			general: []pass{{6, 2}, {5, 3}, {3, 4}}, slow: []pass{{5, 2}, {4, 3}}, paused: []pass{{6, 2}, {5, 3}}, maxPauses: 2,
+			missing: []pass{{5, 2}, {4, 3}}, burstN: all, burstBound: 1, burstPollMax: 70,
+		}
 	}
+	return tierBounds{
+		general: []pass{{4, 2}, {3, 3}}, slow: []pass{{4, 2}, {3, 3}}, paused: []pass{{5, 1}, {4, 2}}, maxPauses: 1,
+		missing: []pass{{4, 2}, {3, 3}}, burstN: []int{1, 2, 3, 4, 5, 7, 8, 9, 15, 16, 17, 31, 32, 33, 40, 63, 64, 65}, burstBound: 1, burstPollMax: 40,
+	}
+}
+
+func hasPause(h []string) bool {
+	for _, op := range h {
+		if op == "p" || op == "q" {
+			return true
+		}
+	}
+	return false
+}
+
+func configs(tier string) []*Config {
+	tb := bounds(tier)
 	var out []*Config
-	for _, ps := range passes {
-		out = append(out, passConfigs(ps.maxLen, ps.bound)...)
+	for _, ps := range tb.general {
+		out = append(out, passConfigs(ps.maxLen, ps.bound, false)...)
 	}
+	for _, ps := range tb.slow {
+		out = append(out, passConfigs(ps.maxLen, ps.bound, true)...)
+	}
+	for _, ps := range tb.paused {
+		out = append(out, pausedConfigs(ps.maxLen, ps.bound, tb.maxPauses)...)
+	}
+	for _, ps := range tb.missing {
+		out = append(out, missingConfigs(ps.maxLen, ps.bound, tb.maxPauses)...)
+	}
+	out = append(out, burstConfigs(tb)...)
 	return out
 }
 
-func passConfigs(maxLen, bound int) []*Config {
+func passConfigs(maxLen, bound int, slow bool) []*Config {
 	var out []*Config
 	for _, poll := range []bool{false, true} {
 		for _, reopen := range []bool{false, true} {
 			for _, tail := range []bool{false, true} {
 				for _, initial := range []string{"", "x"} {
-					for _, h := range histories(maxLen, initial) {
+					for _, h := range histories(maxLen, initial, true, 0) {
 						if len(h) == 0 && initial == "" {
 							continue
 						}
-						out = append(out, &Config{Poll: poll, Reopen: reopen, Tail: tail, Initial: initial, History: h, Bound: bound})
+						out = append(out, &Config{Poll: poll, Reopen: reopen, Tail: tail, Initial: initial, History: h, Bound: bound, Slow: slow})
+					}
+				}
+			}
+		}
+	}
+	return out
+}
+
+// pausedConfigs: the polling modes with histories that contain a pause (the
+// writer lets the poller look at the path before it goes on; without it a
+// poll cycle between two writer operations costs five deviations).
+func pausedConfigs(maxLen, bound, maxPauses int) []*Config {
+	var out []*Config
+	for _, reopen := range []bool{false, true} {
+		for _, tail := range []bool{false, true} {
+			for _, initial := range []string{"", "x"} {
+				for _, h := range histories(maxLen, initial, true, maxPauses) {
+					if !hasPause(h) {
+						continue
+					}
+					out = append(out, &Config{Poll: true, Reopen: reopen, Tail: tail, Initial: initial, History: h, Bound: bound})
+				}
+			}
+		}
+	}
+	return out
+}
+
+// missingConfigs: re-open follow (no --tail) of a path that does not exist
+// when following starts (followreader.New succeeds with re-open; without
+// re-open it fails by design, which is not explored).
+func missingConfigs(maxLen, bound, maxPauses int) []*Config {
+	var out []*Config
+	for _, poll := range []bool{false, true} {
+		mp := 0
+		if poll {
+			mp = maxPauses
+		}
+		for _, h := range histories(maxLen, "", false, mp) {
+			if len(h) == 0 {
+				continue
+			}
+			out = append(out, &Config{Poll: poll, Reopen: true, Family: "missing-at-start", Missing: true, History: h, Bound: bound})
+		}
+	}
+	return out
+}
+
+// burstConfigs: N separate appends, then (once they were delivered) the
+// removal, optionally followed by a re-creation: whatever the number of write
+// notifications that pile up while the consumer is busy, the removal and the
+// re-creation must not be lost among them.
+func burstConfigs(tb tierBounds) []*Config {
+	var out []*Config
+	tails := [][]string{{"r"}, {"r", "d"}, {"r", "c", "a"}}
+	for _, poll := range []bool{false, true} {
+		for _, reopen := range []bool{false, true} {
+			for _, tail := range []bool{false, true} {
+				for _, initial := range []string{"", "x"} {
+					for _, slow := range []bool{false, true} {
+						for _, n := range tb.burstN {
+							if poll && n > tb.burstPollMax {
+								continue
+							}
+							for _, t := range tails {
+								if !reopen && len(t) == 3 {
+									continue // plain follow has ended; one re-creation shape is enough
+								}
+								h := append([]string{fmt.Sprintf("a*%d", n)}, t...)
+								out = append(out, &Config{Poll: poll, Reopen: reopen, Tail: tail, Initial: initial, History: h, Bound: tb.burstBound, Family: "burst", Slow: slow})
+							}
+						}
 					}
 				}
 			}
@@ -340,7 +560,7 @@ func worker(w *runner.W) {
 			for _, f := range fs {
 				w.Violation(f.sig, f.detail, Case{Config: c, Vector: ex.Vector()})
 			}
-			key := fmt.Sprintf("%s|%v|%q|%v|%v", modeName(c), c.History, o.delivered, o.ended, o.excused)
+			key := fmt.Sprintf("%s|%v%v|%v|%q|%v|%v", modeName(c), c.Slow, c.Missing, c.History, o.delivered, o.ended, o.excused)
 			outcomes[key] = true
 			w.Outcome(key)
 			if w.WantSample() && res.Switches > 6 && len(c.History) >= 3 {
@@ -377,10 +597,16 @@ func main() {
 		Properties: []string{"C15"},
 		Level:      "model_checking",
 		Rule: func(prop, tier string) string {
-			return "real followreader.New (notify and polling readers) on a virtual file system + virtual inotify queue under the controlled runtime; for every mode {notify,poll} x {reopen,no} x {tail,no} x initial content {empty,\"x\"} and every valid history up to 4 (quick) / 6 (thorough) operations over {append a, append bc, remove after drain, create empty, create with content} every schedule of writer, reader, notification pump and poll timers with at most B deviations from the run-until-blocked scheduler is executed (quick: histories up to 4 with B=2 and up to 3 with B=3; thorough: up to 6 with B=2, up to 5 with B=3, up to 3 with B=4); which ready select case wins is always enumerated; states = distinct (mode, history, delivered bytes, ended) outcomes, transitions = scheduling steps; non-trivial = some bytes delivered and more than one goroutine switch"
+			return "real followreader.New (notify and polling readers) on a virtual file system + virtual inotify queue under the controlled runtime; every schedule of writer, reader, notification pump, poll timers and clock with at most B deviations from the run-until-blocked scheduler is executed, which ready select case wins is always enumerated; the consumer reads 2 bytes at a time. Families: " +
+				"(1) general: every mode {notify,poll} x {reopen,no} x {tail,no} x initial content {empty,\"x\"} x every valid history over {append a, append bc, remove after drain, create empty, create with content} (quick: up to 4 operations with B=2 and up to 3 with B=3; thorough: up to 6 with B=2, up to 5 with B=3, up to 3 with B=4); " +
+				"(2) slow consumer: the same histories with a consumer that lets virtual time pass before every Read, so that writer and notification pump run to a standstill while the reader is outside Read (quick: up to 4 with B=2, up to 3 with B=3; thorough: up to 5 with B=2, up to 4 with B=3); " +
+				"(3) paused (polling modes): histories that additionally contain pause operations - p: the writer waits until the poller has looked at the path (Stat) once more, anywhere but at the end; q: twice more, only while the path is absent (between removal and re-creation) - at most 1 pause (quick: up to 5 operations with B=1, up to 4 with B=2) / 2 pauses (thorough: up to 6 with B=2, up to 5 with B=3) per history; " +
+				"(4) missing-at-start: re-open follow without --tail of a path that does not exist when following starts, notify and poll (poll with pauses as in 3), every valid history starting with a creation (quick: up to 4 with B=2, up to 3 with B=3; thorough: up to 5 with B=2, up to 4 with B=3); without re-open followreader.New fails by design on a missing path (not explored); " +
+				"(5) burst: histories a*N ; remove-after-drain [; create with content | ; create empty ; append (re-open modes only)] - N separate one-byte appends - for N in {1,2,3,4,5,7,8,9,15,16,17,31,32,33,40,63,64,65} (quick; polling modes N<=40) / every N<=70 and 127..130 (thorough; polling modes N<=70), every mode x initial content {empty,\"x\"} x {default consumer, slow consumer} with B=1 (the slow consumer's default schedule enqueues all N write notifications and, after the drain, the removal and re-creation before the reader consumes a single signal). " +
+				"Oracle at quiescence: delivered bytes equal the appended stream (after the start offset), plain follow has ended iff the file was removed, re-open follow never ends and continues with every re-created file; for polling re-open the statement's proviso is evaluated once per re-created file, at the first Stat of the poller that sees it. states = distinct (mode, consumer, history, delivered bytes, ended) outcomes, transitions = scheduling steps; non-trivial = some bytes delivered and more than one goroutine switch"
 		},
 		Assumptions: func(string) []string {
-			return []string{"inotify delivers CREATE/MODIFY/DELETE for the watched directory in operation order; a rename into place gives one CREATE", "unlinked files stay readable through open descriptors", "the file is removed only after everything written was delivered (as the statement says)", "for polling re-open the statement's proviso is evaluated at the poller's Stat calls; executions where it fails are only checked up to that point"}
+			return []string{"inotify delivers CREATE/MODIFY/DELETE for the watched directory in operation order; a rename into place gives one CREATE", "unlinked files stay readable through open descriptors", "the file is removed only after everything written was delivered (as the statement says)", "for polling re-open the statement's proviso (new file shorter than what was already delivered when the poller notices it) is evaluated at the poller's first Stat call that sees the re-created file; executions where it fails are only checked up to that point", "a path that is missing at start and created later is the followed file itself (everything written to it is expected, no proviso)", "a pause ends when the poller has called Stat on the path the stated number of times, or the stream has ended", "the virtual inotify queue holds 256 events (never overflows within the bounds)"}
 		},
 		Worker:         worker,
 		Replay:         replay,
